@@ -16,10 +16,6 @@ Import ListNotations.
 Lemma settings_table_wf : wf_table extra_flags settings = true.
 Proof. vm_compute. reflexivity. Qed.
 
-(* Setting.add_option passes the literal  "default": None  (AST fact, extracted) *)
-Lemma add_option_passes_default_none : add_option_default_literal_none = true.
-Proof. vm_compute. reflexivity. Qed.
-
 Section C16.
   Variable value : Type.
   Variable vnone : value.
